@@ -4,7 +4,7 @@
 # /repo and /verif stay untouched and several seeds can run in parallel while the harness is being edited.
 # The copy of /verif is refreshed from the working tree on every call (target/ is kept for incremental builds).
 # Results recorded in seeded/*/meta.json still come from tools/seed_run.py (applied to /repo itself).
-set -e
+set +e
 slot=$1; seed=$2; shift 2
 base=/tmp/iso/$slot
 mkdir -p $base
